@@ -22,9 +22,9 @@ import time
 from vlib import core, xsltrun, xsltref, xsltgen, xpref, xsltcore
 from vlib import xsltgen_core3 as g2        # core2's language + top-level variables / params (a superset)
 
-N_QUICK = 1300
+N_QUICK = 1000
 N_THOROUGH = 12000
-BATCH = 650
+BATCH = 500
 KEY1 = "K-C01-core2-1"
 KEY2 = "K-C01-core2-2"
 ERROR_FLAGS = ("nontext_in_comment", "nontext_in_pi", "nontext_in_attribute", "attr_without_element", "copy_of_element_in_text_only_context")
